@@ -122,6 +122,16 @@ func r05IndexSeesEveryVertex(c *core.Ctx) {
 		}
 		return true
 	})
+	if !found {
+		// the same on the SSA form, for loops written with indices: InsertPoint(rings[r][v]) with r and v counters of
+		// full loops over polygon.LinearRings() and over the ring, no iteration that skips the call, the error
+		// returned at once
+		if w := insertLoopSSA(ip.SSA); w == "" {
+			found = true
+		} else {
+			why += "; on the SSA form: " + w
+		}
+	}
 	c.Check(R, "inserts-every-vertex-of-every-ring/"+ip.Name, ip.Decl.Pos(), found, "every vertex of every ring is passed to InsertPoint, the first error is returned unchanged", why)
 	// InsertPolygon returns nil only at the end
 	nilReturns := 0
@@ -324,45 +334,90 @@ func r06EverySegmentRouted(c *core.Ctx) {
 				resObj = core.ObjOf(info, as.Lhs[0])
 			}
 		}
-		for _, s := range vloop.Body.List {
-			lr, ok := s.(*ast.RangeStmt)
-			if !ok || hasJump(lr.Body, token.CONTINUE, token.BREAK, token.RETURN, token.GOTO).IsValid() {
-				continue
-			}
-			// ranges over the same level set that was handed to SnapClosestPoints
-			if !core.SameObj(info, lr.X, snapCall.Args[1]) {
-				continue
-			}
-			lvl := core.ObjOf(info, lr.Key)
-			cleanCalls := core.CallsIn(info, lr.Body, "snap.cleanupNewVertices")
-			if lvl == nil || resObj == nil || len(cleanCalls) != 1 {
-				continue
-			}
-			cc := cleanCalls[0]
-			a0, isIx := ast.Unparen(cc.Args[0]).(*ast.IndexExpr)
-			if !isIx || core.ObjOf(info, a0.X) != resObj || core.ObjOf(info, a0.Index) != lvl || core.ObjOf(info, cc.Args[1]) != segObj || core.ObjOf(info, cc.Args[2]) != lvl {
-				continue
-			}
-			// its result is appended to <ring map>[lvl], the same slot whose last element is handed in
-			var cleaned types.Object
-			for _, st := range lr.Body.List {
-				if as, ok := st.(*ast.AssignStmt); ok && len(as.Rhs) == 1 && ast.Unparen(as.Rhs[0]) == ast.Expr(cc) {
-					cleaned = core.ObjOf(info, as.Lhs[0])
-				}
-			}
-			for _, st := range lr.Body.List {
-				as, ok := st.(*ast.AssignStmt)
-				if !ok || len(as.Lhs) != 1 || len(as.Rhs) != 1 {
+		// the per-level append loop, in the vertex loop itself or in a package helper the loop hands the routed
+		// points, the segment and the level set to
+		appendLoopOK := func(linfo *types.Info, stmts []ast.Stmt, resObj, segObj types.Object, sameLevels func(ast.Expr) bool) bool {
+			found := false
+			for _, s := range stmts {
+				lr, ok := s.(*ast.RangeStmt)
+				if !ok || hasJump(lr.Body, token.CONTINUE, token.BREAK, token.RETURN, token.GOTO).IsValid() {
 					continue
 				}
-				lix, ok := as.Lhs[0].(*ast.IndexExpr)
-				app, ok2 := as.Rhs[0].(*ast.CallExpr)
-				if !ok || !ok2 || !core.IsBuiltinCall(info, app, "append") || len(app.Args) != 2 || !app.Ellipsis.IsValid() {
+				// ranges over the same level set that was handed to SnapClosestPoints
+				if !sameLevels(lr.X) {
 					continue
 				}
-				rix, ok := app.Args[0].(*ast.IndexExpr)
-				if ok && core.ObjOf(info, lix.Index) == lvl && core.ObjOf(info, rix.Index) == lvl && core.SameObj(info, lix.X, rix.X) &&
-					(core.ObjOf(info, app.Args[1]) == cleaned && cleaned != nil || ast.Unparen(app.Args[1]) == ast.Expr(cc)) {
+				lvl := core.ObjOf(linfo, lr.Key)
+				cleanCalls := core.CallsIn(linfo, lr.Body, "snap.cleanupNewVertices")
+				if lvl == nil || resObj == nil || len(cleanCalls) != 1 {
+					continue
+				}
+				cc := cleanCalls[0]
+				a0, isIx := ast.Unparen(cc.Args[0]).(*ast.IndexExpr)
+				if !isIx || core.ObjOf(linfo, a0.X) != resObj || core.ObjOf(linfo, a0.Index) != lvl || core.ObjOf(linfo, cc.Args[1]) != segObj || core.ObjOf(linfo, cc.Args[2]) != lvl {
+					continue
+				}
+				// its result is appended to <ring map>[lvl], the same slot whose last element is handed in
+				var cleaned types.Object
+				for _, st := range lr.Body.List {
+					if as, ok := st.(*ast.AssignStmt); ok && len(as.Rhs) == 1 && ast.Unparen(as.Rhs[0]) == ast.Expr(cc) {
+						cleaned = core.ObjOf(linfo, as.Lhs[0])
+					}
+				}
+				for _, st := range lr.Body.List {
+					as, ok := st.(*ast.AssignStmt)
+					if !ok || len(as.Lhs) != 1 || len(as.Rhs) != 1 {
+						continue
+					}
+					lix, ok := as.Lhs[0].(*ast.IndexExpr)
+					app, ok2 := as.Rhs[0].(*ast.CallExpr)
+					if !ok || !ok2 || !core.IsBuiltinCall(linfo, app, "append") || len(app.Args) != 2 || !app.Ellipsis.IsValid() {
+						continue
+					}
+					rix, ok := app.Args[0].(*ast.IndexExpr)
+					if ok && core.ObjOf(linfo, lix.Index) == lvl && core.ObjOf(linfo, rix.Index) == lvl && core.SameObj(linfo, lix.X, rix.X) &&
+						(core.ObjOf(linfo, app.Args[1]) == cleaned && cleaned != nil || ast.Unparen(app.Args[1]) == ast.Expr(cc)) {
+						found = true
+					}
+				}
+			}
+			return found
+		}
+		okApp = appendLoopOK(info, vloop.Body.List, resObj, segObj, func(e ast.Expr) bool { return core.SameObj(info, e, snapCall.Args[1]) })
+		if !okApp {
+			for _, s := range vloop.Body.List {
+				es, ok := s.(*ast.ExprStmt)
+				if !ok {
+					continue
+				}
+				call, ok := es.X.(*ast.CallExpr)
+				if !ok {
+					continue
+				}
+				cal := core.Callee(info, call)
+				if cal == nil {
+					continue
+				}
+				h := c.P.ByObj[cal.Origin()]
+				if h == nil || h.Pkg != f.Pkg || h.Decl.Body == nil || hasJump(h.Decl.Body, token.RETURN, token.GOTO).IsValid() {
+					continue
+				}
+				hs := h.Obj.Type().(*types.Signature)
+				var hRes, hSeg, hLv types.Object
+				for i, a := range call.Args {
+					if i >= hs.Params().Len() {
+						break
+					}
+					switch {
+					case core.ObjOf(info, a) == resObj && resObj != nil:
+						hRes = hs.Params().At(i)
+					case core.ObjOf(info, a) == segObj && segObj != nil:
+						hSeg = hs.Params().At(i)
+					case core.SameObj(info, a, snapCall.Args[1]):
+						hLv = hs.Params().At(i)
+					}
+				}
+				if hRes != nil && hSeg != nil && hLv != nil && appendLoopOK(h.Pkg.TypesInfo, h.Decl.Body.List, hRes, hSeg, func(e ast.Expr) bool { return core.ObjOf(h.Pkg.TypesInfo, e) == hLv }) {
 					okApp = true
 				}
 			}
@@ -1216,47 +1271,97 @@ func r12RingSizeGuards(c *core.Ctx) {
 		lc, ok := ast.Unparen(be.X).(*ast.CallExpr)
 		return ok && core.IsBuiltinCall(info, lc, "len") && core.ObjOf(info, lc.Args[0]) == o && o != nil
 	}
-	// delete(levelMap, level) guarded by isOuter && len(outer)==0 && (!keep || len(pl)==0)
+	// delete(levelMap, level) exactly when isOuter && len(outer)==0 && (!keep || len(pl)==0): decision table over
+	// the four conditions, read from the SSA of the loop body (whatever the form: one condition, named parts, …)
 	dropOK := false
-	for _, del := range core.BuiltinCallsIn(info, loop.Body, "delete") {
-		if !core.SameObj(info, del.Args[0], loop.X) || core.ObjOf(info, del.Args[1]) != lvl {
-			continue
-		}
-		for _, pn := range pathTo(loop.Body, del) {
-			is, ok := pn.(*ast.IfStmt)
-			if !ok {
-				continue
-			}
-			cj := conjuncts(is.Cond)
-			hasOuter, hasEmpty, hasKeepClause := false, false, false
-			for _, e := range cj {
-				switch {
-				case core.ObjOf(info, e) == isOuterArg && isOuterArg != nil:
-					hasOuter = true
-				case isLenZero(e, outerRes):
-					hasEmpty = true
-				default:
-					dj := disjuncts(e)
-					if len(dj) == 2 {
-						a, b := false, false
-						for _, d := range dj {
-							if u, ok := ast.Unparen(d).(*ast.UnaryExpr); ok && u.Op == token.NOT && isKeep(u.X) {
-								a = true
-							}
-							if isLenZero(d, plRes) {
-								b = true
-							}
-						}
-						hasKeepClause = a && b
-					}
+	dropWhy := "no delete(levelMap, level) after cleanupNewRing"
+	if cs, _ := core.CallAt(aps.SSA, call.Lparen).(*ssa.Call); cs != nil {
+		var del *ssa.Call
+		for _, b := range aps.SSA.Blocks {
+			for _, in := range b.Instrs {
+				if dc, ok := isBuiltinCall(in, "delete"); ok && core.Dominates(cs, dc) {
+					del = dc
 				}
 			}
-			if len(cj) == 3 && hasOuter && hasEmpty && hasKeepClause && is.Else == nil {
-				dropOK = true
+		}
+		outerV, plV := extractOf(cs, 0), extractOf(cs, 2)
+		var isOuterV ssa.Value
+		if len(cs.Call.Args) > 1 {
+			isOuterV = cs.Call.Args[1]
+		}
+		if del != nil && outerV != nil && plV != nil && isOuterV != nil {
+			var header *ssa.BasicBlock
+			if nx, _ := rangeNextOf(del.Call.Args[1]); nx != nil {
+				header = nx.Block()
+			}
+			lenZero := func(v ssa.Value, of ssa.Value) (bool, bool) { // (matches, negated)
+				bo, ok := v.(*ssa.BinOp)
+				if !ok || !isConstInt(bo.Y, 0) {
+					return false, false
+				}
+				lc, ok := bo.X.(*ssa.Call)
+				if !ok {
+					return false, false
+				}
+				if _, isLen := isBuiltinCall(lc, "len"); !isLen || lc.Call.Args[0] != of {
+					return false, false
+				}
+				switch bo.Op {
+				case token.EQL:
+					return true, false
+				case token.NEQ, token.GTR:
+					return true, true
+				}
+				return false, false
+			}
+			atom := func(_ *boolFrame, v ssa.Value) (string, bool, bool) {
+				if v == isOuterV {
+					return "O", false, true
+				}
+				if isFieldRead(v, "KeepPointsAndLines") {
+					return "K", false, true
+				}
+				if m, neg := lenZero(v, outerV); m {
+					return "E", neg, true
+				}
+				if m, neg := lenZero(v, plV); m {
+					return "P", neg, true
+				}
+				return "", false, false
+			}
+			dropOK, dropWhy = true, ""
+			names := []string{"O", "E", "K", "P"}
+			for m := 0; m < 16 && dropOK; m++ {
+				as := map[string]bool{}
+				for i, n := range names {
+					as[n] = m&(1<<i) != 0
+				}
+				bi := &boolInterp{roleOf: func(*boolFrame, ssa.Value) string { return "" }, atom: atom, assign: as, used: map[string]bool{}}
+				fr := &boolFrame{fn: aps.SSA, roles: map[ssa.Value]string{}, env: map[ssa.Value]bool{}}
+				stop := map[*ssa.BasicBlock]bool{del.Block(): true}
+				if header != nil {
+					stop[header] = true
+				}
+				// start right after the call: the rest of its block, then on
+				out, err := bi.runFrom(fr, cs, stop)
+				if err != nil {
+					dropOK, dropWhy = false, "whether the level is dropped depends on more than the four conditions of the policy: "+err.Error()
+					break
+				}
+				deleted := out.kind == "block" && out.blk == del.Block()
+				want := as["O"] && as["E"] && (!as["K"] || as["P"])
+				if deleted != want {
+					dropOK, dropWhy = false, fmt.Sprintf("with shell=%v, no outer rings=%v, keep=%v, no points/lines=%v the level is dropped=%v, the policy says %v", as["O"], as["E"], as["K"], as["P"], deleted, want)
+				}
 			}
 		}
 	}
-	c.Check(R, "level-dropped-only-when-shell-collapses/"+aps.Name, call.Pos(), dropOK, "delete(levelMap, level) iff isOuter && no outer rings && (!keep || no points/lines)", "the condition under which a level is dropped changed: a level can be dropped for a collapsing hole, or kept/dropped against the keep-points-and-lines policy")
+	_ = isKeep
+	_ = isLenZero
+	_ = lvl
+	_ = isOuterArg
+	_, _ = outerRes, plRes
+	c.Check(R, "level-dropped-only-when-shell-collapses/"+aps.Name, call.Pos(), dropOK, "delete(levelMap, level) iff isOuter && no outer rings && (!keep || no points/lines) (decision table, 16 rows)", "the condition under which a level is dropped changed: a level can be dropped for a collapsing hole, or kept/dropped against the keep-points-and-lines policy: "+dropWhy)
 	// points and lines appended only under the option, to the level's own slot
 	keepOK, napp := false, 0
 	ast.Inspect(loop.Body, func(n ast.Node) bool {
@@ -2310,4 +2415,103 @@ func r13SplitClassification(c *core.Ctx) {
 		}
 	}
 	c.OK(R, construct, sr.Decl.Pos(), "decision table of the classification loop agrees with the rule on all 16 valuations (in "+fn.Name()+")")
+}
+
+// fullLoopOver: index is the counter of a loop over the whole slice x (range form or `for i := 0; i < len(x); i++`).
+func fullLoopOver(index ssa.Value, x ssa.Value) *loopInfo {
+	switch v := index.(type) {
+	case *ssa.BinOp:
+		return sliceLoopOf(v, x)
+	case *ssa.Phi:
+		return sliceLoopOfCounter(v, x)
+	}
+	return nil
+}
+
+// insertLoopSSA: see r05IndexSeesEveryVertex.  Returns "" when the nest is as required.
+func insertLoopSSA(fn *ssa.Function) string {
+	if fn == nil || len(fn.Params) < 2 {
+		return "no SSA"
+	}
+	poly := fn.Params[len(fn.Params)-1]
+	var calls []*ssa.Call
+	for _, b := range fn.Blocks {
+		for _, in := range b.Instrs {
+			if call, ok := in.(*ssa.Call); ok && call.Call.StaticCallee() != nil && call.Call.StaticCallee().Name() == "InsertPoint" {
+				calls = append(calls, call)
+			}
+		}
+	}
+	if len(calls) != 1 || len(calls[0].Call.Args) != 2 {
+		return fmt.Sprintf("%d calls of InsertPoint", len(calls))
+	}
+	call := calls[0]
+	via := sliceElemLoad(core.Unwrap(call.Call.Args[1]))
+	if via == nil {
+		return "the argument of InsertPoint is not an element of a ring"
+	}
+	ringV := resolveValue(via.X)
+	ria := sliceElemLoad(ringV)
+	if ria == nil {
+		return "the ring is not an element of the list of rings"
+	}
+	ringsV := resolveValue(ria.X)
+	isRings := ringsV == ssa.Value(poly)
+	if rc, ok := ringsV.(*ssa.Call); ok && rc.Call.StaticCallee() != nil && rc.Call.StaticCallee().Name() == "LinearRings" && len(rc.Call.Args) == 1 && resolveValue(rc.Call.Args[0]) == ssa.Value(poly) {
+		isRings = true
+	}
+	if ct, ok := ringsV.(*ssa.ChangeType); ok && resolveValue(ct.X) == ssa.Value(poly) {
+		isRings = true
+	}
+	if !isRings {
+		return "the rings are not polygon.LinearRings()"
+	}
+	inner, outer := fullLoopOver(via.Index, via.X), fullLoopOver(ria.Index, ria.X)
+	if inner == nil || outer == nil {
+		// the loads may sit on a local copy of the element: try the resolved values
+		if inner == nil {
+			inner = fullLoopOver(via.Index, ringV)
+		}
+		if inner == nil || outer == nil {
+			return "the indices are not counters of loops over the whole ring / the whole list of rings"
+		}
+	}
+	bodyOnly := func(l *loopInfo) func(*ssa.BasicBlock, int) bool {
+		return func(bb *ssa.BasicBlock, k int) bool {
+			if bb == l.header {
+				return k == 0
+			}
+			return true
+		}
+	}
+	first := func(b *ssa.BasicBlock) ssa.Instruction { return b.Instrs[0] }
+	// an iteration of the vertex loop that comes round without the call
+	if skip, _ := (core.Search{Fn: fn, From: first(inner.body0), Target: instrIs(first(inner.header)), Barrier: instrIs(call), Edge: bodyOnly(inner)}).Run(); skip {
+		return "an iteration of the vertex loop can complete without calling InsertPoint"
+	}
+	if call.Block() == inner.body0 && !core.Dominates(call, inner.body0.Instrs[len(inner.body0.Instrs)-1]) {
+		return "InsertPoint is not on every path through the vertex loop's body"
+	}
+	// an iteration of the ring loop that comes round without entering the vertex loop
+	if skip, _ := (core.Search{Fn: fn, From: first(outer.body0), Target: instrIs(first(outer.header)), Barrier: instrIs(first(inner.header)), Edge: bodyOnly(outer)}).Run(); skip {
+		return "an iteration of the ring loop can complete without walking the ring"
+	}
+	// the error: returned at once and unchanged
+	errV := ssa.Value(call)
+	if swallowed, _ := (core.Search{Fn: fn, From: call, Target: func(in ssa.Instruction) bool { return in == first(inner.header) || in == first(outer.header) }, Edge: nonNilEdges(errV)}).Run(); swallowed {
+		return "after InsertPoint returned an error the loops go on"
+	}
+	for _, b := range fn.Blocks {
+		for _, in := range b.Instrs {
+			ret, ok := in.(*ssa.Return)
+			if !ok || len(ret.Results) != 1 {
+				continue
+			}
+			reach, _ := core.Search{Fn: fn, From: call, Target: instrIs(ret), Edge: nonNilEdges(errV)}.Run()
+			if reach && core.Dominates(call, ret) && inner.blocks[ret.Block()] && !retMayBe(ret.Results[0], errV, map[ssa.Value]bool{}) {
+				return "the error of InsertPoint is not what is returned"
+			}
+		}
+	}
+	return ""
 }
